@@ -1876,12 +1876,12 @@ def chained_logic(
 
 def optimize_or(left: SymbolicExpression, right: SymbolicExpression) -> OR:
 
-    left_vars = left._unique_variables_.filter(
-        lambda v: not isinstance(v.value, Literal)
-    )
-    right_vars = right._unique_variables_.filter(
-        lambda v: not isinstance(v.value, Literal)
-    )
+    def is_query_variable(v: HashedValue[Variable]) -> bool:
+        # literals and the nodes that represent predicate / symbolic function calls are not variables of the query.
+        return not isinstance(v.value, Literal) and not v.value._predicate_type_
+
+    left_vars = left._unique_variables_.filter(is_query_variable)
+    right_vars = right._unique_variables_.filter(is_query_variable)
     if set(left_vars.unwrapped_values) == set(right_vars.unwrapped_values):
         return ElseIf(left, right)
     else:
